@@ -357,6 +357,11 @@ class MemStreamTransport(AsyncStreamTransport):
             raise OSError(9, "closed")
         self.sent.append(data)
 
+    async def send_all_from_iterable(self, iterable_of_data):
+        # chunk by chunk, with a possible suspension before each one (a real transport may suspend between partial writes)
+        for chunk in list(iterable_of_data):
+            await self.send_all(chunk)
+
     async def send_eof(self):
         self.eof_sent = True
 
@@ -377,7 +382,15 @@ class MemStreamTransport(AsyncStreamTransport):
 
     @property
     def extra_attributes(self):
-        return {}
+        from easynetwork.lowlevel.socket import INETSocketAttribute
+
+        sock = _FakeTransportSocket()
+        return {
+            INETSocketAttribute.socket: lambda: sock,
+            INETSocketAttribute.family: lambda: 2,
+            INETSocketAttribute.sockname: lambda: ("127.0.0.1", 1),
+            INETSocketAttribute.peername: lambda: ("127.0.0.1", 2),
+        }
 
 
 def run_coro(coro):
